@@ -567,7 +567,7 @@ def rpy2q(angles: np.ndarray, in_deg: bool = False) -> np.ndarray:
     if angles.shape[-1] != 3:
         raise ValueError("Input angles must be an array with three elements.")
     if in_deg:
-        angles *= DEG2RAD
+        angles = angles*DEG2RAD
     if angles.ndim < 2:
         roll, pitch, yaw = angles
     else:
